@@ -141,9 +141,10 @@ def dsCidr (tok : List Byte) : Option (Int × Int) :=
     if at0 tok 1 ≠ 47 then
       if at0 tok 1 == 0 || wspace (at0 tok 1) then none
       else
-        let (v, e) := strtolInt (tok.drop 1)
+        -- `const long l = strtol(...); if ((l < 0) || (l > 32) || ...)` (range-checked before it is stored)
+        let (v, e) := strtolLong (tok.drop 1)
         let ce := at0 tok (1 + e)
-        if v > Gen.spfDsIp4CidrMax || (!wspace ce && ce ≠ 47 && ce ≠ 0) then none
+        if v < 0 || v > Gen.spfDsIp4CidrMax || (!wspace ce && ce ≠ 47 && ce ≠ 0) then none
         else some (v, 1 + e)
     else some (-1, 0)
   match afterFirst with
@@ -155,9 +156,9 @@ def dsCidr (tok : List Byte) : Option (Int × Int) :=
       let c := c + 2
       if at0 tok c == 0 || wspace (at0 tok c) then none
       else
-        let (v, e) := strtolInt (tok.drop c)
+        let (v, e) := strtolLong (tok.drop c)
         let ce := at0 tok (c + e)
-        if v > Gen.spfDsIp6CidrMax || !(wspace ce || ce == 0) then none
+        if v < 0 || v > Gen.spfDsIp6CidrMax || !(wspace ce || ce == 0) then none
         else some (c4, v)
 
 /-- spf_domainspec(domain, token, &domainspec, &ip4cidr, &ip6cidr): error code or the result -/
